@@ -7,14 +7,15 @@ counter is their number, and its mutex is held by at most one of them.
 namespace C17
 open Conc
 
-/-- between `locked++` (MemoryLock.Lock) and `locked--` (MemoryLock.Unlock) -/
+/-- between `locked++` (MemoryLock.Lock) and `locked--` (MemoryLock.Unlock); a request whose `Unlock`
+failed without releasing stays there for ever -/
 def inLock : Pc → Bool
-  | .lockAcq | .atGet2 | .atHandler | .atSet | .atUnlock | .unlockLookup | .unlockRelease | .unlockDec => true
+  | .lockAcq | .atGet2 | .atHandler | .atSet | .atUnlock | .unlockLookup | .unlockRelease | .unlockDec | .leaked => true
   | _ => false
 
 /-- between `lock.mu.Lock()` returning and `lock.mu.Unlock()` -/
 def holds : Pc → Bool
-  | .atGet2 | .atHandler | .atSet | .atUnlock | .unlockLookup | .unlockRelease => true
+  | .atGet2 | .atHandler | .atSet | .atUnlock | .unlockLookup | .unlockRelease | .leaked => true
   | _ => false
 
 theorem inLock_of_holds {pc : Pc} (h : holds pc = true) : inLock pc = true := by
@@ -32,7 +33,7 @@ structure LInv (g : G) : Prop where
   /-- different keys have different lock objects -/
   inj : ∀ k k' i, g.keys k = some i → g.keys k' = some i → k = k'
 
-theorem linv_init (reqs : Tid → Req) (t0 : Nat) : LInv (init reqs t0) := by
+theorem linv_init (reqs : Tid → Req) (t0 : Nat) (keep : Option (List String)) : LInv (init reqs t0 keep) := by
   refine ⟨?_, ?_, ?_, ?_, ?_, ?_, ?_, ?_⟩ <;> intros <;> simp_all [init, inLock, holds]
 
 /-- steps that leave the lock table alone and keep the thread in the same lock region -/
@@ -208,6 +209,8 @@ theorem linv_step (life : Nat) {g g' : G} {t : Tid} (hi : LInv g) (hs : Step lif
   | faultGet2 hpc =>
     exact linv_quiet (t := t) hi rfl rfl rfl (fun t' h => by simp [h]) (by simp) (by simp) (by simp [hpc, inLock]) (by simp [hpc, holds])
   | faultSet hpc =>
+    exact linv_quiet (t := t) hi rfl rfl rfl (fun t' h => by simp [h]) (by simp) (by simp) (by simp [hpc, inLock]) (by simp [hpc, holds])
+  | faultUnlock hpc =>
     exact linv_quiet (t := t) hi rfl rfl rfl (fun t' h => by simp [h]) (by simp) (by simp) (by simp [hpc, inLock]) (by simp [hpc, holds])
   | unlockFound hpc k hk i hki =>
     -- the entry found is the one the thread already points to
